@@ -142,13 +142,18 @@ def collapseIO (I : IOInst) (ents : List IOEnt) (outer : List Out) : IOResult :=
 
 /-! ## `func_instance_parms` -/
 
+/-- Text before the first space, and the text after it if there is a space. -/
+def breakSpace : List Char → List Char × Option (List Char)
+  | [] => ([], none)
+  | c :: cs => if c = ' ' then ([], some cs) else ((c :: (breakSpace cs).1), (breakSpace cs).2)
+
 /-- `str.split(' ', maxsplit)` -/
 def splitSpaces : Nat → List Char → List (List Char)
   | 0, s => [s]
   | n + 1, s =>
-    match s.span (· != ' ') with
-    | (a, []) => [a]
-    | (a, _ :: rest) => a :: splitSpaces n rest
+    match breakSpace s with
+    | (a, none) => [a]
+    | (a, some rest) => a :: splitSpaces n rest
 
 /-- One declared parameter: name, the type token if there is one, default.
 `parts = value.split(' ', 2)`; the default is everything after the second space (it may contain
